@@ -7,6 +7,7 @@ import KyupyVerif.Model.Net
 import KyupyVerif.Model.SimOps
 import KyupyVerif.Model.WaveCirc
 import KyupyVerif.Model.Capture
+import KyupyVerif.Model.MapCert
 import KyupyVerif.Gen.Tables
 import KyupyVerif.Drv.Registry
 /-! Line protocol driver: one request per line on stdin, one answer per line on stdout.
@@ -216,6 +217,24 @@ def step (st : DState) (line : String) : DState × String :=
           (evalCapturesG net z spec4Not prim4 a).map (fun o => match o with
             | some v => toString v.code | none => "-") ++ [if ok then "" else "!"]
       (st, "".intercalate res)
+  | ["mapok", strip, capsMin, rest] =>
+      -- rest = ops|starts|locs|caps|clen with , inside and / between ops
+      match rest.splitOn "|" with
+      | [opsS, startsS, locsS, capsS, clenS] =>
+        let ops := (opsS.splitOn "/").filter (· ≠ "") |>.map fun t =>
+          match (t.splitOn ",").map String.toNat! with
+          | [l, o, a, b, c, d] => OpRow.mk l o a b c d
+          | _ => default
+        let p : MapIn := { net := st.net, strip := strip == "1", ops := ops, starts := parseNats startsS,
+                           locs := ((locsS.splitOn ",").filter (· ≠ "") |>.map String.toInt!).toArray,
+                           caps := (parseNats capsS).toArray, cLen := clenS.toNat!, capsMin := capsMin.toNat! }
+        (st, match p.check with | none => "ok" | some e => "FAIL " ++ e)
+      | _ => (st, "bad")
+  | ["levelsok", startsS, opsS] =>
+      let ops := (opsS.splitOn "/").filter (· ≠ "") |>.map WaveSimD.parseOp
+      let lvls := KV.Sig.splitLevels ops (parseNats startsS)
+      let bad := (lvls.zipIdx.filter fun (lv, _) => !(KV.Sig.levelIndepB lv)).map (·.2)
+      (st, if bad.isEmpty then "ok" else s!"FAIL levels {bad}")
   | ["eval2", bits, k] =>
       let net := st.net
       let a := iterState net k.toNat! (NetD.bitsOf bits)
